@@ -12,6 +12,7 @@ stage 4  search on the implementation: one configuration per class generated at 
 import json
 import math
 import os
+import random
 import re
 
 import numpy as np
@@ -454,10 +455,14 @@ def scale_class(s):
 
 
 def close_field(a, b, scale):
+    """element-wise; the tolerance is relative to the norm of the observer's OWN field row (1e-9), with an
+    absolute floor of 1e-13 of the largest row of the call (`scale`)"""
     a, b = np.asarray(a, dtype=float), np.asarray(b, dtype=float)
     fin = np.isfinite(a) & np.isfinite(b)
     same_nonfin = (np.isnan(a) & np.isnan(b)) | ((a == b) & ~fin)
-    return (np.abs(np.where(fin, a - b, 0.0)) <= 1e-9 * scale) & (fin | same_nonfin)
+    w = np.where(np.isfinite(b), b, 0.0)
+    rown = np.sqrt(np.sum(w * w, axis=-1, keepdims=True))
+    return (np.abs(np.where(fin, a - b, 0.0)) <= 1e-9 * rown + 1e-13 * scale) & (fin | same_nonfin)
 
 
 def triangle_ind_flips(verts, p, s):
@@ -472,6 +477,70 @@ def triangle_ind_flips(verts, p, s):
         b = np.sum(Rv * Lv, axis=-1)
         return np.fabs(r + b / l) > 1.0e-12
     return bool(np.any(dec(1.0) != dec(s)))
+
+
+_ANALYSIS = None
+
+
+def translated_records(key):
+    """the comparisons of one GenTol entry, as translated from the CURRENT source: [(id, [nodes])]"""
+    global _ANALYSIS
+    if _ANALYSIS is None:
+        from translate import gen_tol as g
+        res = g.analyse(REPO)
+        bounds = [pe[1] for pe in res["per_entry"]] + [len(res["interp"].records)]
+        _ANALYSIS = {pe[0]: [(r[0], r[2]) for r in res["interp"].records[bounds[i]:bounds[i + 1]]]
+                     for i, pe in enumerate(res["per_entry"])}
+    return _ANALYSIS.get(key, [])
+
+
+def translated_flips(key, vals1, vals2):
+    """ids of the entry's comparisons that decide differently under the two valuations"""
+    e1, e2 = make_evaluator(vals1), make_evaluator(vals2)
+    out = []
+    for rid, nodes in translated_records(key):
+        try:
+            if any(bool(e1(n)) != bool(e2(n)) for n in nodes):
+                out.append(rid)
+        except Exception:   # pylint: disable=broad-except
+            continue
+    return out
+
+
+def cylseg_flips(c, p, s):
+    """which comparisons of BHJM_cylinder_segment / determine_cases (current source) decide differently at
+    scale s for the local observer p (as magpylib computes it from the global one)"""
+    rot, pos = R.from_rotvec(c["pose"]["rotvec"]), np.array(c["pose"]["position"])
+    mu0 = float(magpy.mu_0)
+    flips = []
+    vals = []
+    for t in (1.0, s):
+        q = rot.inv().apply(to_global(c, [p], t) - pos * t)[0]
+        d = np.array(c["dim"], dtype=float)
+        d[:3] *= t
+        v = {"MU0": mu0}
+        for j in range(3):
+            v[f"0.{j}.observers@cylinder_segment"] = float(q[j])
+            v[f"0.{j}.polarization@cylinder_segment"] = float(c["exc"][j])
+        for j in range(5):
+            v[f"0.{j}.dimension@cylinder_segment"] = float(d[j])
+        vals.append((v, q, d))
+    flips += translated_flips("cylinder_segment", vals[0][0], vals[1][0])
+    # the 8 boundary combinations the core hands to determine_cases
+    combos = []
+    for (v, q, d) in vals:
+        r, phi, z = math.hypot(q[0], q[1]), math.atan2(q[1], q[0]), q[2]
+        lst = []
+        for ri in (abs(d[0]), abs(d[1])):
+            for pj in (d[3] / 180 * math.pi, d[4] / 180 * math.pi):
+                for zk in (-abs(d[2]) / 2, abs(d[2]) / 2):
+                    lst.append({"MU0": mu0, "0.r@cylinder_segment_cases": r, "0.phi@cylinder_segment_cases": phi,
+                                "0.z@cylinder_segment_cases": z, "0.r1@cylinder_segment_cases": ri,
+                                "0.phi1@cylinder_segment_cases": pj, "0.z1@cylinder_segment_cases": zk})
+        combos.append(lst)
+    for a, b in zip(*combos):
+        flips += translated_flips("cylinder_segment_cases", a, b)
+    return sorted(set(flips))
 
 
 ACTIVE_IDS = None     # ids that fail the dimension check on the current tree (None: not known, assume all)
@@ -515,15 +584,17 @@ def diagnose(c, p, s, clause, region="generic"):
             if tm.mask_inside_trimesh(pt1, F3)[0] != tm.mask_inside_trimesh(pts, F3s)[0]:
                 return "inside-outside", "mask_inside_trimesh:fixed-ray-offset"
         if cls == "CylinderSegment":
-            r1, r2, h = c["dim"][:3]
-            x, y, z = p
-            r = math.hypot(x, y)
-            rel = min(abs(r - r1), abs(r - r2), abs(abs(z) - h / 2), r) / max(r2, h)     # distance to a special set
-            # the absolute tolerances of this class: close(atol=1e-12) and the +-1e-14 margins.  They decide
-            # differently at scale s when the point is within them at one of the two scales only
-            if rel * min(s, 1.0) <= 4e-12 or rel <= 1e-12:
-                return clause, ("cylinder_segment:margin=1e-14" if clause == "inside-outside"
-                                else "cylinder_segment:close-atol=1e-12")
+            # blame the absolute tolerances of this class only if one of the EXCLUDED comparisons of the current
+            # source really decides differently at the two scales on this input
+            fl = [i for i in cylseg_flips(c, p, s) if ACTIVE_IDS is None or i in ACTIVE_IDS]
+            margin = any("1e-14" in i for i in fl)
+            closeb = any("close(" in i for i in fl)
+            if clause == "inside-outside" and margin:
+                return clause, "cylinder_segment:margin=1e-14"
+            if closeb:
+                return clause, "cylinder_segment:close-atol=1e-12"
+            if margin:
+                return clause, "cylinder_segment:margin=1e-14"
     except Exception as e:   # pylint: disable=broad-except
         return clause, f"{cls}:{region}:{size}:diagnosis-raised-{type(e).__name__}"
     return clause, f"{cls}:{region}:{size}"
@@ -755,6 +826,9 @@ def run(ctx):
     exc = EXCITATIONS if (big or ctx.tier == "thorough") else [P2(-40), P2(40), 1e-12, 1e12]
     run_guarded(ctx, lambda: search(ctx, n_cfg, ctx.n(6, 20), scales, exc), "C12 search")
     run_guarded(ctx, lambda: check_mesh_status(ctx, SCALES_EXACT + SCALES_TEN), "C12 mesh status")
+    from harness import c12_batteries
+    bsc = scales if (big or ctx.tier == "thorough") else [P2(-30), P2(-17), P2(-7), P2(10), P2(30), 1e-6, 1e3]
+    c12_batteries.run_all(ctx, bsc, [P2(-40), P2(40)])
 
 
 def replay(ctx, obj):
@@ -772,6 +846,32 @@ def replay(ctx, obj):
         if fails:
             print(f"VIOLATION property=C12 replay={obj.get('how_to_rerun', '').split()[-1] or 'given'}")
         return 1 if fails else 0
+    if rp.get("kind") == "battery":
+        from harness import c12_batteries
+        sig = obj.get("signature")
+
+        class Rec(Quiet):
+            def __init__(self):
+                self.rng, self.sigs, self.tier = random.Random(ctx.seed), [], ctx.tier
+
+            def impl_fail(self, sg, what, _r):
+                self.sigs.append((sg, what))
+
+            def case(self, *_a, **_k):
+                pass
+
+            def count(self, *_a, **_k):
+                pass
+
+            def add_broken(self, *_a):
+                pass
+        rec = Rec()
+        c12_batteries.run_all(rec, [P2(-30), P2(-17), P2(-7), P2(10), P2(30), 1e-6, 1e3], [P2(-40), P2(40)])
+        hit = [w for sg, w in rec.sigs if sg == sig]
+        print("replay:", f"FAILS: {hit[0][:400]}" if hit else "the battery passes (signature not reproduced)")
+        if hit:
+            print(f"VIOLATION property=C12 replay={obj.get('how_to_rerun', '').split()[-1] or 'given'}")
+        return 1 if hit else 0
     if rp.get("kind") == "mesh-status":
         V, Fc = mesh_cases()[rp["mesh"]]
         a, b = mesh_status(V, Fc, 1.0), mesh_status(V, Fc, rp["scale"])
